@@ -15,7 +15,22 @@ for f in sorted(glob.glob(os.path.join(VERIF, 'seeded', '*', 'meta.json'))):
     own = [c.split(':')[1] for c in caught if c.startswith(prop + ':')]
     others = sorted({c.split(':')[0] for c in caught if not c.startswith(prop + ':')})
     needs = ' '.join((m.get('needs_to_manifest') or '').split())
-    what = needs[:260] + ('…' if len(needs) > 260 else '')
+    mm = re.match(r"\[round (\d), author's change ([ABC])\] ", needs)
+    letter, rnd = (mm.group(2), mm.group(1)) if mm else (name[-1], '1')
+    seg = re.search(r'## (?:Change )?%s\b(.*?)(?=## (?:Change )?[A-D]\b|$)' % letter, needs)
+    what = seg.group(1).strip(' -—:') if seg and len(seg.group(1)) > 40 else ''
+    if not what:
+        # fall back to what the patch touches
+        files, funcs = [], []
+        for line in open(os.path.join(os.path.dirname(f), 'patch.diff')):
+            if line.startswith('+++ b/'):
+                files.append(os.path.basename(line[6:].strip()))
+            elif line.startswith('@@'):
+                ctxt = line.split('@@')[-1].strip()
+                if ctxt and ctxt not in funcs:
+                    funcs.append(ctxt)
+        what = 'patch touches %s: %s' % (', '.join(files), '; '.join(funcs)[:200])
+    what = 'r%s: ' % rnd + what[:330] + ('…' if len(what) > 330 else '')
     rows.append('| %s | %s | %s | %s | %s |' % (name, 'yes' if m.get('confirmed') else 'NO', own[0] if own else '**missed**',
                                              ', '.join(others) or '–', what.replace('|', '/')))
 table = '\n'.join(['| seeded change | confirmed | own check | also reported by | what it is / needs (from the author\'s notes) |',
